@@ -1049,30 +1049,24 @@ theorem C08_gen_follow_trace :
     Gen.C08.followStateMasks = [["MATCH_TO_MATCH", "GAP_LEFT_TO_MATCH", "GAP_TOP_TO_MATCH"], ["MATCH_TO_GAP_LEFT", "GAP_LEFT_TO_GAP_LEFT"], ["MATCH_TO_GAP_TOP", "GAP_TOP_TO_GAP_TOP"]] := by
   refine ⟨rfl, rfl, rfl, rfl, rfl, rfl⟩
 
-/-- `align.score`, `find_terminal_gaps`, `get_codes` (what `scorePub` mirrors statement by statement): pairs counted when both codes `!= -1`, first gap of a run costs `gap_open`, further ones `gap_ext`, slice `max(firsts) .. min(lasts)+1`. -/
+/-- `align.score`, `find_terminal_gaps`, `get_codes` (what `scorePub` mirrors statement by statement; alpha-normalised: locals `v0, v1, …` by first binding, private attributes `_a0, …`, messages dropped): pairs counted when both codes `!= -1`, first gap of a run costs `gap_open`, further ones `gap_ext`, slice `max(firsts) .. min(lasts)+1`. -/
 theorem C08_gen_score :
-    Gen.C08.scoreIfs = ["isinstance(gap_penalty, numbers.Real)", "isinstance(gap_penalty, Sequence)", "terminal_penalty", "seq_code[i] == -1", "code_i != -1 and code_j != -1", "in_gap"] ∧
-    Gen.C08.scoreAugAssign = [("score", "Add", "matrix[code_i, code_j]"), ("score", "Add", "gap_ext"), ("score", "Add", "gap_open")] ∧
-    Gen.C08.scoreAssign = ["gap_open = gap_penalty", "gap_ext = gap_penalty", "in_gap = False", "gap_open = gap_penalty[0]", "gap_ext = gap_penalty[1]", "start_index = 0", "stop_index = len(seq_code)", "in_gap = True", "in_gap = False", "start_index, stop_index = find_terminal_gaps(alignment)"] ∧
+    Gen.C08.scoreIfs = ["get_codes(alignment)[:, L0][L1] != -1 and get_codes(alignment)[:, L0][L2] != -1", "isinstance(gap_penalty, numbers.Real)", "isinstance(gap_penalty, Sequence)", "terminal_penalty", "L3[L4] == -1", "v3"] ∧
+    Gen.C08.scoreAugAssign = [("v0", "Add", "matrix.score_matrix()[get_codes(alignment)[:, L0][L1], get_codes(alignment)[:, L0][L2]]"), ("v0", "Add", "v2"), ("v0", "Add", "v1")] ∧
+    Gen.C08.scoreAssign = ["v0 = 0", "v1 = gap_penalty", "v2 = gap_penalty", "v1 = gap_penalty[0]", "v2 = gap_penalty[1]", "v3 = False", "v4 = 0", "v5 = len(L3)", "v4, v5 = find_terminal_gaps(alignment)", "v3 = True", "v3 = False", "L0 in range(get_codes(alignment).shape[1])", "L1 in range(get_codes(alignment).shape[0])", "L2 in range(L1 + 1, get_codes(alignment).shape[0])", "L3 in get_codes(alignment)", "L4 in range(v4, v5)"] ∧
     Gen.C08.scoreRaises = ["TypeError"] ∧
-    Gen.C08.ftgReturn = ["(np.max(firsts).item(), np.min(lasts).item() + 1)"] ∧
-    Gen.C08.ftgAssign = ["trace = alignment.trace", "no_gap_pos = [np.where(trace[:, i] != -1)[0] for i in range(trace.shape[1])]", "firsts = [pos[0] if len(pos) > 0 else trace.shape[0] for pos in no_gap_pos]", "lasts = [pos[-1] if len(pos) > 0 else -1 for pos in no_gap_pos]"] ∧
-    Gen.C08.getCodesAssign = ["trace = alignment.trace", "sequences = alignment.sequences", "codes = np.zeros((trace.shape[1], trace.shape[0]), dtype=np.int64)", "no_gap = trace[:, i] != -1", "codes[i] = np.int64(-1)", "codes[i, no_gap] = sequences[i].code[trace[no_gap, i]]"] := by
+    Gen.C08.ftgReturn = ["(np.max([L2[0] if len(L2) > 0 else alignment.trace.shape[0] for L2 in [np.where(alignment.trace[:, L0] != -1)[0] for L0 in range(alignment.trace.shape[1])]]).item(), np.min([L3[-1] if len(L3) > 0 else -1 for L3 in [np.where(alignment.trace[:, L1] != -1)[0] for L1 in range(alignment.trace.shape[1])]]).item() + 1)"] ∧
+    Gen.C08.ftgAssign = [] ∧
+    Gen.C08.getCodesAssign = ["v0 = np.zeros((alignment.trace.shape[1], alignment.trace.shape[0]), dtype=np.int64)", "v0[L0] = np.int64(-1)", "v0[L0, alignment.trace[:, L0] != -1] = alignment.sequences[L0].code[alignment.trace[alignment.trace[:, L0] != -1, L0]]", "L0 in range(len(alignment.sequences))", "np.stack(v0)"] := by
   refine ⟨rfl, rfl, rfl, rfl, rfl, rfl, rfl⟩
 
 /-- `SubstitutionMatrix`: int32 conversion, rejection of int32 min / max entries, dictionary fill over ALL ordered symbol pairs (no symmetry assumption), `dict_from_str` orientation. -/
 theorem C08_gen_matrix :
-    Gen.C08.matrixInitTests = ["isinstance(score_matrix, dict)", "isinstance(score_matrix, np.ndarray)", "score_matrix.shape != alph_shape", "not np.issubdtype(score_matrix.dtype, np.integer)", "np.any(self._matrix == np.iinfo(np.int32).max) or np.any(self._matrix == np.iinfo(np.int32).min)", "isinstance(score_matrix, str)"] ∧
+    Gen.C08.matrixInitTests = ["isinstance(score_matrix, dict)", "isinstance(score_matrix, np.ndarray)", "score_matrix.shape != (len(alphabet1), len(alphabet2))", "not np.issubdtype(score_matrix.dtype, np.integer)", "np.any(self._a3 == np.iinfo(np.int32).max) or np.any(self._a3 == np.iinfo(np.int32).min)", "isinstance(score_matrix, str)"] ∧
     Gen.C08.matrixInitRaises = ["ValueError", "TypeError", "ValueError", "TypeError"] ∧
-    Gen.C08.matrixAstype = ["self._matrix = score_matrix.astype(np.int32)"] ∧
-    Gen.C08.matrixFillDict = ["self._matrix = np.zeros((len(self._alph1), len(self._alph2)), dtype=np.int32)", "for i in range(len(self._alph1)):
-    for j in range(len(self._alph2)):
-        sym1 = self._alph1.decode(i)
-        sym2 = self._alph2.decode(j)
-        self._matrix[i, j] = int(matrix_dict[sym1, sym2])"] ∧
-    Gen.C08.matrixDictFromStr = ["lines = [line.strip() for line in string.split('\\n')]", "lines = [line for line in lines if len(line) != 0 and line[0] != '#']", "symbols1 = [line.split()[0] for line in lines[1:]]", "symbols2 = [e for e in lines[0].split()]", "scores = np.array([line.split()[1:] for line in lines[1:]]).astype(int)", "matrix_dict = {}", "for i in range(len(symbols1)):
-    for j in range(len(symbols2)):
-        matrix_dict[symbols1[i], symbols2[j]] = scores[i, j]", "return matrix_dict"] := by
+    Gen.C08.matrixAstype = ["self._a3 = score_matrix.astype(np.int32)"] ∧
+    Gen.C08.matrixFillDict = ["self._a0 = np.zeros((len(self._a1), len(self._a2)), dtype=np.int32)", "self._a0[L0, L1] = int(p1[self._a1.decode(L0), self._a2.decode(L1)])", "L0 in range(len(self._a1))", "L1 in range(len(self._a2))"] ∧
+    Gen.C08.matrixDictFromStr = ["v0 = [L0.strip() for L0 in string.split('\\n')]", "v0 = [L1 for L1 in v0 if len(L1) != 0 and L1[0] != '#']", "v1 = {}", "v1[[L3.split()[0] for L3 in v0[1:]][L7], [L5 for L5 in v0[0].split()][L8]] = np.array([L6.split()[1:] for L6 in v0[1:]]).astype(int)[L7, L8]", "L7 in range(len([L2.split()[0] for L2 in v0[1:]]))", "L8 in range(len([L4 for L4 in v0[0].split()]))", "v1"] := by
   refine ⟨rfl, rfl, rfl, rfl, rfl⟩
 
 /-! ## Non-vacuity -/
